@@ -55,7 +55,9 @@ unsafe impl UnsizedTypePtr for RemainingBytesPtr {
         let addr = self.0.addr();
         let is_advanced = addr >= *cursor;
         *cursor = addr;
-        is_advanced && range.contains(&addr)
+        // An empty `RemainingBytes` sits at the very end of the data, which is the end of the
+        // allocation once the data has grown by the full `MAX_PERMITTED_DATA_INCREASE`.
+        is_advanced && (range.contains(&addr) || addr == range.end)
     }
 }
 
